@@ -41,6 +41,9 @@ structure DState where
   errorText : Str := []
   indexErrorText : Str := []
   ignored0 : Bool := false
+  whenNotCommand : Bool := true
+  brackets : Str := ['[', ']']
+  invOrder : List Str := []          -- plugins having invalidCommand, in irc.callbacks order
 
 /-- plugin trees from the flat records (fuel = number of records: depth bound) -/
 def build (recs : List PRec) : Nat → Option Nat → List Plugin
@@ -77,6 +80,50 @@ def vtBeh (plugin : Str) (command rest : List Str) : Act :=
   | some 'z' => ⟨false, .raise .argument⟩
   | some 'q' => ⟨false, .raise .silent⟩
   | _ => ⟨false, .silent⟩
+
+/-- what a command body / invalidCommand handler called `name` does, by its behaviour letter -/
+def letterAct (k : Option Char) (name : Str) (text : Str) : Act :=
+  match k with
+  | some 'r' | some 'b' | some 'v' | some 'l' | some 'h' => ⟨false, .reply text⟩
+  | some 'n' => ⟨false, .noReply⟩
+  | some 'o' => ⟨false, .reply []⟩
+  | some 'w' => ⟨false, .reply (txt "  ")⟩
+  | some 'e' => ⟨false, .error (txt "E:" ++ name)⟩
+  | some 's' => ⟨false, .silent⟩
+  | some 'i' => ⟨true, .noReply⟩
+  | some 'j' => ⟨true, .reply text⟩
+  | some 'x' => ⟨false, .raise (.other (txt "ValueError: boom " ++ name))⟩
+  | some 'y' => ⟨false, .raise (.error (txt "Y:" ++ name))⟩
+  | some 'z' => ⟨false, .raise .argument⟩
+  | some 'q' => ⟨false, .raise .silent⟩
+  | _ => ⟨false, .silent⟩
+
+/-- the synthetic invalidCommand handlers of VtOrderA ('a') and VtOrderB ('b'): the first token
+`<h>inv<k>` is handled by plugin `<h>` with behaviour `<k>`; `cinv<kb><ka>` by both -/
+def vtInvHandler (who : Char) (_nested : Nat) (tokens : List Str) : Act :=
+  match tokens with
+  | [] => ⟨false, .silent⟩
+  | t :: rest =>
+    let text := t ++ txt "(" ++ joinStr (txt ", ") rest ++ txt ")"
+    match t with
+    | h :: 'i' :: 'n' :: 'v' :: k :: more =>
+      if h = who then letterAct (some k) t text
+      else if h = 'c' then
+        (match more with
+         | k2 :: _ => letterAct (some (if who = 'b' then k else k2)) t text
+         | [] => ⟨false, .silent⟩)
+      else ⟨false, .silent⟩
+    | _ => ⟨false, .silent⟩
+
+def miscErrText (tokens : List Str) : Str :=
+  txt "\"" ++ tokens.head?.getD [] ++ txt "\" is not a valid command."
+
+def DState.invChain (s : DState) : Nat → List Str → Act :=
+  invalidChain ((s.invOrder.filterMap fun n =>
+      if n = txt "VtOrderA" then some (vtInvHandler 'a')
+      else if n = txt "VtOrderB" then some (vtInvHandler 'b')
+      else if n = txt "Misc" then some (miscInvalid s.whenNotCommand s.brackets miscErrText)
+      else none))
 
 def vtHelp (command : List Str) : Str :=
   txt "(\x02" ++ joinStr (txt " ") command ++ txt " <anything>\x02) -- Synthetic C14 command " ++
@@ -130,7 +177,6 @@ def encStop : Stop → String
   | .silent => "silent"
   | .tooDeep => "tooDeep"
   | .ambiguous c names => "ambiguous\t" ++ encList c ++ "\t" ++ encList names
-  | .invalid t => "invalid\t" ++ encList t
 
 def encOutcome : Outcome → String
   | .replied s => "replied\t" ++ enc s
@@ -232,10 +278,14 @@ def step (s : DState) : List String → DState × String
       let r := ownerEnable ⟨s.disabled, s.conf⟩ pl cmd
       ({ s with disabled := r.1.store, conf := r.1.conf }, encOwner r)
     | _, _ => (s, "bad-op")
+  | ["invcfg", w, b, order] =>
+    match decBool w, dec b, decList order with
+    | some w, some b, some order => ({ s with whenNotCommand := w, brackets := b, invOrder := order }, "ok")
+    | _, _, _ => (s, "bad-op")
   | ["eval", tree] =>
     match decTree tree with
     | some args =>
-      let (o, st) := evalTop s.evCfg (dispatch s.dispCfg) vtBeh args ⟨[], s.ignored0, false⟩
+      let (o, st) := evalTop s.evCfg (dispatch s.dispCfg) vtBeh s.invChain args ⟨[], s.ignored0, false⟩
       (s, encOutcome o ++ "\t@\t" ++ encLog st.log ++ "\t" ++ (if st.ignored then "1" else "0"))
     | none => (s, "bad-op")
   | _ => (s, "bad-op")
